@@ -14,6 +14,12 @@ R4 dof-bounds    the loop bound chosen for a built-in (annexed DoFs only
                  reduction) and the upper-bound expressions.
 R5 completeness  code, documentation, BUILTIN_MAP and the Fortran metadata
                  file name the same built-ins.
+R6 access-info   LFRicBuiltIn.reference_accesses reports every argument with
+                 its metadata access unchanged (a gh_sum scalar stays a SUM:
+                 the OpenMP data-sharing inference would make a WRITE scalar
+                 private and lose the reduction).
+R7 fused-reductions  LFRicLoopFuseTrans.validate looks for reductions in all
+                 kernels of both loops (a loop may already be a fused one).
 """
 import ast
 import os
@@ -687,11 +693,69 @@ def check_dof_bounds(idx, run):
                   "undf", loc(mod, nd))
 
 
+def check_access_info(idx, run):
+    cls = idx.get_class("psyclone.domain.lfric.lfric_builtins.LFRicBuiltIn")
+    func = cls.methods.get("reference_accesses")
+    if func is None:
+        raise AnalysisError("LFRicBuiltIn.reference_accesses not found")
+    mod = cls.module
+    cons = "LFRicBuiltIn.reference_accesses"
+    loops = [s for s in func.body if isinstance(s, ast.For) and
+             ast.unparse(s.iter) == "self.args"]
+    run.check("C20.R6", len(loops) == 1, cons, "every argument is reported",
+              "the access information no longer iterates over self.args",
+              loc(mod, func))
+    adds = [c for c in ast.walk(func) if isinstance(c, ast.Call) and
+            isinstance(c.func, ast.Attribute) and
+            c.func.attr == "add_access"]
+    run.floor("built-in add_access sites", len(adds), 1)
+    var = ast.unparse(loops[0].target) if loops else "arg"
+    for call in adds:
+        got = ast.unparse(call.args[1]) if len(call.args) > 1 else "?"
+        run.check("C20.R6", got == f"{var}.access", cons,
+                  f"access passed through unchanged ({norm_call(call)})",
+                  f"an argument is recorded with access '{got}' instead of "
+                  f"its metadata access: a reduction scalar (gh_sum) "
+                  f"reported as a plain write is made thread-private by the "
+                  f"OpenMP data-sharing inference and the sum is lost",
+                  loc(mod, call))
+    # all add_access calls are inside the loop over the arguments and the
+    # separately collected writes are merged back
+    txt = " ".join(ast.unparse(func).split())
+    seps = {ast.unparse(c.func.value) for c in adds} - {"var_accesses"}
+    for name in sorted(seps):
+        run.check("C20.R6", f"var_accesses.merge({name})" in txt, cons,
+                  f"separately collected accesses ({name}) are merged",
+                  f"accesses collected in '{name}' never reach the result",
+                  loc(mod, func))
+
+
+def norm_call(call):
+    return " ".join(ast.unparse(call.func).split())
+
+
+def check_fused_reductions(idx, run):
+    from sa.obligations import check_table
+    check_table(idx, run, "C20.R7", {
+        ("LFRicLoopFuseTrans", "validate"): {
+            "consults": [
+                ("node1.args_filter(", "collecting the reductions of all "
+                 "kernels in the first loop"),
+                ("node2.args_filter(", "collecting the reductions / "
+                 "arguments of all kernels in the second loop"),
+            ],
+            "contains": [("get_valid_reduction_modes()",
+                          "all reduction modes count")],
+        }})
+
+
 def check(idx, run):
     run.explanation = __doc__
     reductions = check_builtins(idx, run)
     check_reduction_flag(idx, run, reductions)
     check_dof_bounds(idx, run)
+    check_access_info(idx, run)
+    check_fused_reductions(idx, run)
     run.exhaustive = True
     run.assumptions = ["the user guide is the specification",
                        "kind / precision arguments are ignored"]
